@@ -205,6 +205,21 @@ def run(ctx, rep):
                     else:
                         rep.violated(key, "step B factor of exported cogenerated electricity = electricity grid factor",
                                      construct=where)
+    # equations (9)-(12) and (32): allocation of production by priority and the load-matching factor are decided
+    # by the C12 pack on the ELECTRICIDAD instance, re-stated here because they are equations of the standard
+    from . import c12
+    from .common import Report
+    sub12 = Report("C12")
+    c12.run(ctx, sub12)
+    al = [o for o in sub12.obligations if o.key.startswith(("C12/b/", "C12/c/"))]
+    if len(al) < 6:
+        rep.violated("C02/eq9-12/anchor", "the allocation of produced electricity is analysable", why="%d C12 obligations" % len(al))
+    for o in al:
+        k = "C02/eq9-12/" + "/".join(o.key.split("/")[1:])
+        if o.status == "discharged":
+            rep.discharged(k, "EN ISO 52000-1 (9)-(12),(32): " + o.clause, nontrivial=False)
+        else:
+            rep.violated(k, "produced electricity is allocated by (9)-(12) and matched by (32)", construct=o.construct, why=o.why)
     rep.analysed = {"weighted_leaves_compared": n, "lookup_keys": "Factors::find evaluated with the prescribed keys"}
     rep.floor("weighted-leaves", n, 12 * 13 * 3)
 
